@@ -210,4 +210,4 @@ def _obligations():
 
 
 def obligations():
-    return _obligations() + [effects_obligation("C06")]
+    return _obligations() + [labels_obligation("C06"), effects_obligation("C06")]
